@@ -76,11 +76,14 @@ def worker_init() -> None:
     class ServerTransport(BaseTransport, scheme="vecu"):  # type: ignore[misc]
         """client transport whose peer is a UDSServerTransport in the same process"""
 
-        def __init__(self, name: str, st: Any, wire: list[Any]) -> None:
+        def __init__(self, name: str, st: Any, wire: list[Any], late: Any = ()) -> None:
             super().__init__(TargetURI(f"vecu://{name}"))
             self.st = st
-            self.wire = wire
-            self.pending: bytes | None = None
+            self.wire = wire  # [request, reply the client was handed for it (None: the read timed out)]
+            self.queue: list[bytes] = []
+            self.held: list[bytes] = []
+            self.late = set(late)  # indexes of requests whose reply arrives only after the client's read has timed out
+            self.nwrites = 0
 
         @classmethod
         async def connect(cls, target: Any, timeout: float | None = None) -> Any:
@@ -91,17 +94,22 @@ def worker_init() -> None:
 
         async def write(self, data: bytes, timeout: float | None = None, tags: Any = None) -> int:
             reply, _ = await self.st.handle_request(data)
-            self.wire.append((data, reply))
-            self.pending = reply
+            idx, self.nwrites = self.nwrites, self.nwrites + 1
+            self.wire.append([data, None])
+            if reply is not None:
+                (self.held if idx in self.late else self.queue).append(reply)
             return len(data)
 
         async def read(self, timeout: float | None = None, tags: Any = None) -> bytes:
             await asyncio.sleep(0.005)
-            r, self.pending = self.pending, None
-            if r is None:
-                await asyncio.sleep(timeout if timeout else 10**6)
-                raise TimeoutError
-            return r
+            if self.queue:
+                r = self.queue.pop(0)
+                self.wire[-1][1] = r
+                return r
+            await asyncio.sleep(timeout if timeout else 10**6)
+            self.queue += self.held  # the late reply is there now: the next read gets it
+            self.held.clear()
+            raise TimeoutError
 
     @dataclass
     class Props(ECUProperties):  # type: ignore[misc]
@@ -137,7 +145,7 @@ def make_server(seed: int) -> Any:
 
 
 # letters -> request bytes (some depend on the model / on earlier replies)
-LETTERS = ["dsc2", "dsc3", "dsc40", "dsc1", "dscX", "seed", "keyok", "keybad", "reset", "f186", "rd1", "rd2", "wr1", "rt1", "tp", "tpsup", "dsc2sup"]
+LETTERS = ["dsc2", "dsc3", "dsc40", "dsc1", "dscX", "seed", "keyok", "keybad", "reset", "f186", "rd1", "rd2", "wr1", "rt1", "tp", "tpsup", "dsc2sup", "reset4", "reset5"]
 
 
 def request_for(letter: str, last_seed: tuple[int, bytes] | None, sa_sub: int | None) -> bytes:
@@ -153,15 +161,20 @@ def request_for(letter: str, last_seed: tuple[int, bytes] | None, sa_sub: int | 
         sub = last_seed[0] if last_seed else (sa_sub or 1)
         return bytes([0x27, sub + 1, 0xBA, 0xD0, 0xBA, 0xD1])
     return {
-        "reset": b"\x11\x01", "f186": b"\x22\xf1\x86", "rd1": b"\x22\x00\x01", "rd2": b"\x22\x00\x04", "wr1": b"\x2e\x00\x01\xaa",
+        "reset": b"\x11\x01", "reset4": b"\x11\x04", "reset5": b"\x11\x05", "f186": b"\x22\xf1\x86", "rd1": b"\x22\x00\x01", "rd2": b"\x22\x00\x04", "wr1": b"\x2e\x00\x01\xaa",
         "rt1": b"\x31\x01\x00\x01", "tp": b"\x3e\x00", "tpsup": b"\x3e\x80",
     }[letter]
 
 
-async def record(path: Path, seed: int, letters: list[str], target: str, props: Any, box: dict[str, Any], tag: str) -> list[tuple[bytes, bytes | None]]:
+async def record(path: Path, seed: int, letters: list[str], target: str, props: Any, box: dict[str, Any], tag: str, late: Any = ()) -> list[tuple[bytes, bytes | None]]:
     srv = G["srv"]
     server = make_server(seed)
     await server.setup()
+    # where the model offers ECUReset it also offers the rapid power shutdown sub-functions (reply carries a powerDownTime)
+    for svcs in server.services.values():
+        subs = svcs.get(srv.UDSIsoServices.EcuReset)
+        if subs is not None:
+            svcs[srv.UDSIsoServices.EcuReset] = sorted(set(subs) | {4, 5})
     st = srv.UDSServerTransport(server, G["TargetURI"]("tcp-lines://127.0.0.1:1"))
     wire: list[tuple[bytes, bytes | None]] = []
     dbh = G["DBHandler"](path)
@@ -170,7 +183,7 @@ async def record(path: Path, seed: int, letters: list[str], target: str, props: 
     await dbh.insert_scan_run(target)
     if props is not None:
         await dbh.insert_scan_run_properties_pre(props)
-    ecu = G["ECU"](G["ServerTransport"](tag, st, wire), timeout=1.0, max_retry=0)
+    ecu = G["ECU"](G["ServerTransport"](tag, st, wire, late), timeout=1.0, max_retry=0)
     ecu.db_handler = dbh
     sa_sub = None
     for sess in sorted(server.services):
@@ -192,7 +205,7 @@ async def record(path: Path, seed: int, letters: list[str], target: str, props: 
     await dbh.complete_run_meta(datetime.fromtimestamp(BASE_T + asyncio.get_running_loop().time(), UTC), 0, None)
     await dbh.disconnect()
     box.setdefault("states", {})[tag] = states
-    return wire
+    return [(q, r) for q, r in wire]
 
 
 async def replay_db(path: Path, requests: list[bytes], ecu_name: str | None, props: dict[str, Any] | None) -> list[bytes | None]:
@@ -245,7 +258,7 @@ def execute(item: dict[str, Any]) -> dict[str, Any]:
         async def main() -> None:
             G["run_tag"] = "A"
             propsA = G["Props"](vin="WVWAAA", sw=1) if shape != "props0" else G["Props"](vin="", sw=0, coding=False, note=None)
-            wireA = await record(path, seed, letters, "tcp-lines://ecu-a:1", propsA if shape in ("props", "props0") else None, box, "A")
+            wireA = await record(path, seed, letters, "tcp-lines://ecu-a:1", propsA if shape in ("props", "props0") else None, box, "A", item.get("late", ()))
             box["wireA"] = wireA
             name = None
             props = None
@@ -260,6 +273,15 @@ def execute(item: dict[str, Any]) -> dict[str, Any]:
                 G["run_tag"] = "A2"
                 await record(path, seed, letters, "tcp-lines://ecu-a:1", None, box, "A2")
                 name = "A"
+            elif shape == "name-like":
+                # two ECUs whose names differ only in case / in characters that SQL LIKE treats as wildcards; the later one is selected
+                G["run_tag"] = "B"
+                wireB = await record(path, seed + 1000, letters, "tcp-lines://ecu-b:1", None, box, "B")
+                na, nb = item["names"]
+                tag_ecus(path, {"tcp-lines://ecu-a:1": na, "tcp-lines://ecu-b:1": nb})
+                name = nb
+                box["wireA"], box["wireB"] = wireB, wireA  # the selected recording is the reference
+                box["states"]["A"], box["states"]["B"] = box["states"]["B"], box["states"]["A"]
             elif shape in ("name", "props", "props0"):
                 G["run_tag"] = "B"
                 propsB = G["Props"](vin="WVWBBB", sw=1) if shape != "props0" else G["Props"](vin="x", sw=7, coding=True, note="n")
@@ -273,7 +295,7 @@ def execute(item: dict[str, Any]) -> dict[str, Any]:
                 else:
                     # falsy and null property values select like any other value
                     props = item.get("select") or {"sw": 0, "coding": False, "note": None}
-            box["replay"] = await replay_db(path, [q for q, _ in wireA], name, props)
+            box["replay"] = await replay_db(path, [q for q, _ in box["wireA"]], name, props)
 
         task = run.loop.create_task(main(), name="main")
         run.done = task.done
@@ -290,7 +312,7 @@ def execute(item: dict[str, Any]) -> dict[str, Any]:
 
 def judge(item: dict[str, Any], box: dict[str, Any], res: Result) -> None:
     rp = {"item": item}
-    where = f"[seed={item['seed']} shape={item['shape']} history={item['letters']}]"
+    where = f"[seed={item['seed']} shape={item['shape']} history={item['letters']}{' names=' + str(item['names']) if item.get('names') else ''}{' late-reply-to=' + str(item['late']) if item.get('late') else ''}]"
 
     def v(sig: str, m: str) -> None:
         res.violate(f"C12|{sig}", m + " " + where, rp)
@@ -319,7 +341,7 @@ def judge(item: dict[str, Any], box: dict[str, Any], res: Result) -> None:
             if prior_silence and not default and not isinstance(got, str):
                 sig = f"replay-reset-by-recorded-silence|{kind}"
             else:
-                sig = f"{kind}|after-recorded-silence={'yes' if prior_silence else 'no'}|client-state!=server-state={'yes' if state_split else 'no'}|shape={item['shape']}"
+                sig = f"{kind}|after-recorded-silence={'yes' if prior_silence else 'no'}|client-state!=server-state={'yes' if state_split else 'no'}|shape={item['shape']}{'|late-reply' if item.get('late') else ''}"
             v(
                 sig,
                 f"request {i} ({letters[i]}, {req.hex()}): recorded reply {want.hex() if want else None}, replay gave {got.hex() if isinstance(got, bytes) else got}; "
@@ -337,6 +359,12 @@ def run_item(item: dict[str, Any]) -> Result:
         res.seen("states", (item["seed"], item["shape"], tuple(box["wireA"]), tuple(box.get("replay", ()))))
         if any(w is not None and w[0] != 0x7F for _, w in box["wireA"]):
             res.count("histories_with_positive_replies")
+        for k in item.get("late", ()):
+            w = box["wireA"]
+            if w[k][1] is None and k + 1 < len(w) and w[k + 1][1] is not None:
+                res.count("histories_with_late_reply_logged_for_next_request")
+        if item["shape"] == "name-like" and [r for _, r in box["wireA"]] != [r for _, r in box["wireB"]]:
+            res.count("colliding_name_cases_with_different_recordings")
         if any(c["session"] != 1 for c, _ in box["states"]["A"]):
             res.count("histories_leaving_default_session")
         if any(c["security_access_level"] is not None for c, _ in box["states"]["A"]):
@@ -369,11 +397,24 @@ def items(tier: str, seed: int) -> list[Any]:
                     out.append({"seed": sd, "letters": list(seq), "shape": sh, "sample": sd == 1 and seq in (("dsc2", "seed", "keyok"), ("dsc2", "rd1")) and sh == "one"})
         # deeper states first: prefixes that leave the default session / unlock security, then every short suffix
         prefixes = [["dsc2", "seed", "keyok"], ["seed", "keyok"], ["dsc3", "seed", "keyok"], ["dsc2", "dsc3"], ["dsc2", "seed"]]
-        suffix_alpha = ["dsc2", "dsc3", "dsc1", "seed", "keyok", "keybad", "reset", "f186", "rd1", "wr1", "rt1", "tp"]
+        suffix_alpha = ["dsc2", "dsc3", "dsc1", "seed", "keyok", "keybad", "reset", "f186", "rd1", "reset4", "reset5", "wr1", "rt1", "tp"]
         for pre in prefixes:
             for m in (1, 2):
-                for suf in itertools.product(suffix_alpha if m == 1 or not quick else suffix_alpha[:9], repeat=m):
+                for suf in itertools.product(suffix_alpha if m == 1 or not quick else suffix_alpha[:11], repeat=m):
                     out.append({"seed": sd, "letters": pre + list(suf), "shape": "one", "sample": False})
+        # ECU names that collide under SQL LIKE / case folding; the ECU recorded later is the one selected
+        for names in (("gw-1", "gw_1"), ("Body", "BODY"), ("body", "Body"), ("ecu12", "ecu%"), ("x_y", "x_y2")):
+            for seq in (["rd1"], ["f186", "rd1"], ["dsc2", "rd1"], ["rd1", "rd2"], ["dsc2", "seed"], ["rt1", "wr1"]):
+                out.append({"seed": sd, "letters": seq, "shape": "name-like", "names": list(names), "sample": False})
+        # recording faults: the reply to request k arrives only after the client's read timed out and is read as the answer to
+        # request k+1 (logged with a RequestResponseMismatch); the replay must still reproduce what was logged
+        for n in (2, 3) if quick else (2, 3, 4):
+            alpha = ["dsc2", "dsc3", "dsc1", "seed", "reset", "f186", "rd1", "tp"] if n <= 3 else ["dsc2", "dsc1", "seed", "rd1"]
+            if quick and n == 3:
+                alpha = ["dsc2", "dsc1", "seed", "rd1", "reset"]
+            for seq in itertools.product(alpha, repeat=n):
+                for k in range(n - 1):
+                    out.append({"seed": sd, "letters": list(seq), "shape": "one", "late": [k], "sample": False})
     for sd in list(seeds)[:2]:
         for sel in ({"sw": 0}, {"coding": False}, {"note": None}, {"vin": ""}, {"sw": 0, "vin": ""}):
             out.append({"seed": sd, "letters": ["rd1", "dsc2", "rd1"], "shape": "props0", "select": sel, "sample": False})
@@ -393,7 +434,8 @@ def replay(doc: dict[str, Any]) -> Result:
 def finish(merged: Result, tier: str) -> dict[str, Any]:
     shutil.rmtree(TMP, ignore_errors=True)
     c = merged.counters
-    for k in ("histories_with_positive_replies", "histories_leaving_default_session", "histories_unlocking_security"):
+    for k in ("histories_with_positive_replies", "histories_leaving_default_session", "histories_unlocking_security",
+              "histories_with_late_reply_logged_for_next_request", "colliding_name_cases_with_different_recordings"):
         if not c.get(k):
             raise Broken(f"vacuous: {k} == 0")
     return {"exhaustive": True}
